@@ -24,7 +24,10 @@ RULE = ("(a) random programs (depth <=4, <=9 nodes) over useobjparams / disable_
         "the crash happens while at least one substitution is active (a) / the run evaluates user code (b)")
 TRUSTED = ["harness tools/props/c10.py, tools/fkinds.py (snapshot of identity/value/registration), tools/workloads.py"]
 ASSUMPTIONS = ["crash points are evaluations of user code (function bodies, custom steps); asynchronous exceptions between "
-               "two byte-codes are outside the quantifier"]
+               "two byte-codes are outside the quantifier",
+               "the restore-stack theorems are about programs in which only the wrapper assigns the object's tensors between a "
+               "substitution and its restore; a caller who assigns an attribute between a call and its backward pass is the history of "
+               "finding F45, exercised by an implementation probe, not by the model"]
 HEADER = "From XV Require Import Model.Packer Model.PureFn.\n"
 
 
